@@ -50,11 +50,12 @@ theorem popAttr_eq_name {e e' : Elem} {k : Str} {o : Option Str} (h : e.popAttr 
 @[simp] theorem expandCompoundSize_name (e : Elem) : e.expandCompoundSize.name = e.name := by
   unfold Elem.expandCompoundSize
   dsimp only
-  split <;> simp only [expandPair_name]
+  simp only [expandPair_name]
 
 @[simp] theorem expandCompoundPos_name (e : Elem) : e.expandCompoundPos.name = e.name := by
   unfold Elem.expandCompoundPos
   dsimp only
+  rw [popAttr_name]
   simp only [expandPair_name]
   split
   · rename_i e' v h
